@@ -7,12 +7,13 @@ import std_specs as S
 from engine.rsx import ScanError as S_ScanError
 
 PROPERTIES = ["C07"]
-MIN_VERIFIED = 8
+MIN_VERIFIED = 13
 F = 'src/operator/mod.rs'
 ASSUMPTIONS = [
     "V-BLOCK: the bodies of the closures passed to group_by_fold by Stream::group_by_avg / group_by_sum / group_by_count are extracted byte for byte and wrapped in functions whose parameters are the closure's parameters (destructuring patterns kept as a `let`); the builder code around them (group_by_fold itself, the final `.map(..)` of avg/sum) is not under contract",
     "V-SUBST: `*x += e` on the user's value type V -> x.add_assign(e) on a model trait AddAssign with a spec function plus (Verus has no contract for overloaded `+=` on a generic type); plus is ASSUMED associative (the property's own hypothesis); usize `+=` is kept and checked for overflow (counts < 2^64: precondition)",
     "get_value is a total deterministic function (closure contract)",
+    "group_by_reduce / reduce / reduce_assoc: the user's reduce function is a total mathematical function rs(a, b) (assumed contract of the opaque closure); the captured f / f2 (a clone of f) become parameters of the wrapper functions",
 ]
 PRELUDE = r'''
 trait AddAssign: Sized {
@@ -41,6 +42,22 @@ proof fn lemma_merge_totals<V: AddAssign>(a: Seq<V>, b: Seq<V>)
         assert((a + b).drop_last() =~= a + b.drop_last());
         assert((a + b).last() == b.last());
     }
+}
+'''
+
+
+REDUCE_DEFS = r'''
+// the user's reduce function as a mathematical function (ASSUMED contract of the opaque closure)
+uninterp spec fn rs<I, F>(a: I, b: I) -> I;
+#[verifier::prophetic]
+spec fn red_ok<I, F: Fn(&mut I, I)>(f: F) -> bool {
+    &&& forall|a: &mut I, b: I| f.requires((a, b))
+    &&& forall|a: &mut I, b: I| #[trigger] f.ensures((a, b), ()) ==> *final(a) == rs::<I, F>(*a, b)
+}
+uninterp spec fn rs2<I, F>(a: I, b: I) -> I;
+spec fn red2_ok<I, F: Fn(I, I) -> I>(f: F) -> bool {
+    &&& forall|a: I, b: I| f.requires((a, b))
+    &&& forall|a: I, b: I, r: I| #[trigger] f.ensures((a, b), r) ==> r == rs2::<I, F>(a, b)
 }
 '''
 
@@ -125,4 +142,51 @@ def build(x):
                f"fn count_global({m6.group(1)}: &mut usize, {m6.group(2)}: usize)\n    requires *old({m6.group(1)}) + {m6.group(2)} <= usize::MAX\n    ensures *final({m6.group(1)}) == *old({m6.group(1)}) + {m6.group(2)},   // #obl:count.global_adds_the_partial_counts\n{{ {m6.group(3)}; }}\n")
     co.note('V-BLOCK', 2, 'closure bodies of group_by_count extracted and wrapped in functions of the closure parameters')
     pieces.append(co)
+
+    # ---- group_by_reduce: reduce expressed as a fold over Option (local) and a merge of the partial results (global)
+    gr = x.method(F, 'Stream', 'group_by_reduce')
+    m7, b7 = closure_body(gr, r'move \|(\w+), (\w+)\|')
+    i2 = gr.text.index(m7.group(0)) + len(m7.group(0))
+    m8 = re.search(r'move \|(\w+), (\w+)\|', gr.text[i2:])
+    if m8 is None:
+        raise S_ScanError('group_by_reduce: global closure not found')
+    tmp_text = gr.text
+    gr.text = gr.text[i2:]
+    m8, b8 = closure_body(gr, r'move \|(\w+), (\w+)\|')
+    gr.text = (REDUCE_DEFS
+               + f"fn reduce_local<I, F: Fn(&mut I, I)>(f: F, {m7.group(1)}: &mut Option<I>, {m7.group(2)}: I)\n"
+                 f"    requires red_ok::<I, F>(f),\n"
+                 f"    ensures *final({m7.group(1)}) == Some(match *old({m7.group(1)}) {{ None => {m7.group(2)}, Some(a) => rs::<I, F>(a, {m7.group(2)}) }}),   // #obl:reduce.local_first_value_starts_then_f_folds\n"
+                 f"{{\n    {b7.strip()}\n}}\n"
+               + f"fn reduce_global<I, F: Fn(&mut I, I)>(f2: F, {m8.group(1)}: &mut Option<I>, {m8.group(2)}: Option<I>)\n"
+                 f"    requires red_ok::<I, F>(f2),\n"
+                 f"    ensures *final({m8.group(1)}) == (match (*old({m8.group(1)}), {m8.group(2)}) {{ (None, x) => x, (Some(a), None) => Some(a), (Some(a), Some(b)) => Some(rs::<I, F>(a, b)) }}),   // #obl:reduce.global_merges_the_partial_results\n"
+                 f"{{\n    {b8.strip()}\n}}\n")
+    gr.note('V-BLOCK', 2, 'closure bodies of group_by_reduce extracted and wrapped in functions of the closure parameters (the captured user function f / f2 becomes a parameter)')
+    pieces.append(gr)
+
+    # ---- reduce / reduce_assoc (global forms, user function Fn(I, I) -> I)
+    rd = x.method(F, 'Stream', 'reduce')
+    m9, b9 = closure_body(rd, r'move \|(\w+), (\w+)\|')
+    rd.text = (f"fn reduce_step<I, F: Fn(I, I) -> I>(f: F, {m9.group(1)}: &mut Option<I>, {m9.group(2)}: I)\n"
+               f"    requires red2_ok::<I, F>(f),\n"
+               f"    ensures *final({m9.group(1)}) == Some(match *old({m9.group(1)}) {{ None => {m9.group(2)}, Some(a) => rs2::<I, F>(a, {m9.group(2)}) }}),   // #obl:reduce.step_first_value_starts_then_f_folds\n"
+               f"{{\n    {b9.strip()}\n}}\n")
+    rd.note('V-BLOCK', 1, 'closure body of Stream::reduce extracted and wrapped in a function of the closure parameters')
+    pieces.append(rd)
+    ra = x.method(F, 'Stream', 'reduce_assoc')
+    m10 = re.search(r'move \|(\w+), (\w+)\| (\*\1 = [^\n]*),\n', ra.text)
+    m11, b11 = closure_body(ra, r'move \|(\w+), mut (\w+)\|')
+    if m10 is None:
+        raise S_ScanError('reduce_assoc: local closure not found')
+    ra.text = (f"fn reduce_assoc_local<I, F: Fn(I, I) -> I>(f: F, {m10.group(1)}: &mut Option<I>, {m10.group(2)}: I)\n"
+               f"    requires red2_ok::<I, F>(f),\n"
+               f"    ensures *final({m10.group(1)}) == Some(match *old({m10.group(1)}) {{ None => {m10.group(2)}, Some(a) => rs2::<I, F>(a, {m10.group(2)}) }}),   // #obl:reduce_assoc.local_first_value_starts_then_f_folds\n"
+               f"{{\n    {m10.group(3)};\n}}\n"
+               + f"fn reduce_assoc_global<I, F: Fn(I, I) -> I>(f2: F, {m11.group(1)}: &mut Option<I>, {m11.group(2)}: Option<I>)\n"
+                 f"    requires red2_ok::<I, F>(f2),\n"
+                 f"    ensures *final({m11.group(1)}) == (match (*old({m11.group(1)}), {m11.group(2)}) {{ (None, x) => x, (Some(a), None) => Some(a), (Some(a), Some(b)) => Some(rs2::<I, F>(a, b)) }}),   // #obl:reduce_assoc.global_merges_the_partial_results\n"
+                 f"{{\n    let mut {m11.group(2)} = {m11.group(2)};\n    {b11.strip()}\n}}\n")
+    ra.note('V-BLOCK', 2, 'closure bodies of Stream::reduce_assoc extracted and wrapped in functions of the closure parameters')
+    pieces.append(ra)
     return pieces
